@@ -59,6 +59,11 @@ func checkC17(repo, tier string, workers int, solverKind string, seed int) int {
 		for _, t := range st.Traces["t"] {
 			traces = append(traces, tr{b, t})
 			n++
+			if os.Getenv("GOSYM_DUMPTRACE") != "" {
+				for _, ev := range t {
+					fmt.Printf("    %s %-3s %-22s %s\n", b, ev.Kind, ev.Loc, ev.Fn)
+				}
+			}
 		}
 		if n == 0 {
 			inconclusive = append(inconclusive, "no trace recorded for "+b)
